@@ -6,8 +6,8 @@ Who-may-write, pairing and guard rules (default configuration). Set equality wit
 from rdv.core import (CheckBroken, Origins, Pos, call_matches, callee_res, infeasible_edges, norm_path, primary_edges,
                       strip_generics, switch_edges, term_has, term_leaves, term_str)
 
-CONFIGS = ['default']
-THOROUGH_CONFIGS = ['security']
+CONFIGS = ['default', 'security']
+THOROUGH_CONFIGS = []
 LEVEL = 'other'
 
 SIDES = [
@@ -293,6 +293,9 @@ def run(rep, facts, tier):
 
     rule_11_7(rep, fx, facts)
     rule_11_8(rep, fx)
+    for cfg in ('default', 'security'):
+        if cfg in facts:
+            rule_11_12(rep, facts[cfg], cfg)
 
     # the attic helper must move all endpoints of the participant (shared with C12 R12.7; added after seed C11e: an entry left behind in the attic is restored later in place
     # of / in addition to the live one, so a disposed endpoint is matched again and a lost participant's endpoint stays announced)
@@ -370,3 +373,63 @@ def rule_11_8(rep, fx):
     need = ('Reader::participant_lost', 'Writer::participant_lost')
     rep.check(all(any(u.endswith(n) for u in users) for n in need), 'R11.8', 'GuidPrefix::range/users', 'used by %s' % ', '.join(users)[:160],
               'participant_lost of the reader or the writer no longer selects its proxies with GuidPrefix::range (users: %s)' % users, b.where())
+
+
+def rule_11_12(rep, fx, cfg):
+    """A discovered remote endpoint is handed to every local endpoint of its topic. The only thing that may hold it back is an incompatible security configuration
+    (security feature, plugins present)."""
+    if cfg == 'default':
+        rep.rule('R11.12', 'discovered => handed over: in DPEventLoop::remote_reader_discovered / remote_writer_discovered every local writer / reader with the same topic name gets '
+                           'update_reader_proxy / update_writer_proxy on every path; under the security feature the one exception is the false result of '
+                           'check_are_endpoints_securities_compatible with plugins present (without plugins: always matched). Evaluated in both feature configurations, because the '
+                           'default test suite does not compile the security arms')
+    ev = 'rtps::dp_event_loop::DPEventLoop::'
+    for fn, coll, callee in (('remote_reader_discovered', 'writers', 'Writer::update_reader_proxy'), ('remote_writer_discovered', 'available_readers', 'Reader::update_writer_proxy')):
+        b = fx.find(ev + fn)
+        rep.analysed(b)
+        og = Origins(b, summaries=True)
+        P = Pos(b)
+        edges = list(switch_edges(b, fx, og))
+        ups = [(bb, 'term') for bb, t in b.calls() if call_matches(t, callee)]
+        topic_eq = [(s_, t_) for s_, t_, cond, lab in edges if cond[0] == 'call' and cond[1].endswith(('::eq', '::ne')) and
+                    term_has(cond, lambda x: (x[0] == 'call' and x[1].endswith('topic_name')) or (x[0] == 'field' and x[1] in ('topic_name', 'my_topic_name'))) and
+                    ((cond[1].endswith('::eq') and lab is True) or (cond[1].endswith('::ne') and lab is False))]
+        # `let match_to_x = true;` of the default configuration: the switch on that constant has one feasible arm
+        dead = [(s_, t_) for s_, t_, cond, lab in edges if cond[0] == 'const' and isinstance(lab, bool) and (str(cond[2]) in ('1', 'True', 'true')) != lab]
+        nxt = [(nb, 'term') for nb, t in b.calls() if callee_res(t).endswith('::next') and has_field(og.of_operand(t['args'][0], nb, 'term'), coll)]
+        incompatible = [(s_, t_) for s_, t_, cond, lab in edges if
+                        (lab is False and cond[0] == 'call' and cond[1].endswith('check_are_endpoints_securities_compatible')) or
+                        (lab is True and cond[0] == 'un' and cond[1] == 'Not' and term_has(cond, lambda x: x[0] == 'call' and x[1].endswith('check_are_endpoints_securities_compatible')))]
+        ok = bool(ups) and bool(topic_eq) and bool(nxt)
+        # store-aware: the decision is kept in a bool (`match_to_x`) that is switched on after the join, so paths are evaluated with constant propagation
+        from rdv.sympath import SymPath
+        from rdv.core import natural_loops
+        sp = SymPath(b, fx)
+        up_blocks = tuple(bb for bb, _k in ups)
+        heads = set(l[0] for l in natural_loops(b))
+        enders = set(b.return_blocks())
+        for bb in b.live_blocks():
+            if any(sx in heads for sx in b.succs(bb)):
+                enders.add(bb)
+        n_skip = 0
+        teq = set(topic_eq)
+        inc = set(incompatible)
+        none = set((s_, t_) for s_, t_, cond, lab in edges if lab == 'None' and cond[0] == 'discr' and has_field(cond, 'security_plugins_opt'))
+        for g in sorted(enders):
+            for path in sp.paths(0, g, through_heads=True, avoid=up_blocks):
+                pe = set((path[i], path[i + 1]) for i in range(len(path) - 1))
+                if not (pe & teq):
+                    continue
+                st = sp.run(path, 'term')
+                if st.infeasible:
+                    continue
+                n_skip += 1
+                if not (pe & inc) or (pe & none):
+                    ok = False
+        if cfg == 'security':
+            ok = ok and bool(incompatible) and bool(none) and n_skip >= 1
+        else:
+            ok = ok and not incompatible and n_skip == 0
+        rep.check(ok, 'R11.12', '%s/%s/hands-over' % (cfg, fn), 'same topic => %s on every path%s' % (callee, ' (except incompatible security)' if cfg == 'security' else ''),
+                  '%s [%s features]: a local endpoint on the topic of the discovered remote endpoint can be skipped without %s although nothing speaks against the match '
+                  '(no incompatible security configuration on that path): the remote endpoint is announced and compatible but never matched' % (fn, cfg, callee), b.where())
